@@ -57,6 +57,8 @@ class B:
                  sections=rng.choice([1, 1, 2, 3, 4]), u_w_per_m2k=u,
                  text_k=rng.choice([268.15, 283.15, 293.15]))
         d.update(kw)
+        if "text_k" not in kw and rng.random() < 0.25:
+            d["text_k"] = None                       # ambient of this pipe = the pipeflow option ambient_temperature
         r = rng.random()
         if r < 0.2 and not lossless and "inner_diameter_mm" not in kw:
             # library standard type with insulation: outer != inner diameter, u from u_w_per_mk
